@@ -181,12 +181,20 @@ def make_case(args):
 
 
 def run_check():
-    ck = Check("C06", level="other")
-    ck.explanation = ("Independence checked on the implementation: every catalogue operation on datasets with 0–3 non-spectral dimensions of any "
-                      "order is compared, position by position, with the same call on the extracted single spectrum (own wind/depth); one "
-                      "spectrum is then replaced and every other position must be unchanged; the Dataset accessor must agree with the efth "
-                      "accessor. The Lean part (Props/C06.lean) models dataset operations as List.map/zipWith of the single-spectrum model, "
-                      "so batched_get/update_other are true by construction: the level is 'other'. hmax is excluded by the property.")
+    ck = Check("C06", level="proof")
+    ck.explanation = ("Lean (Props/C06dims.lean): reductions / indexing along freq or dir commute with extracting a position and are unaffected by "
+                      "edits at other positions, for all arrays and reducers (reduce_spectral_get/_single/_update_other); one along any other "
+                      "axis is not (reduce_pos_mixes). The axis structure of every labelled-array call of SpecArray, xrstats, Partition, "
+                      "regrid_spec, smooth_spec, SpecDataset is REGENERATED from the current source by harness/translate_dims.py on every run and "
+                      "decided spectral-only (gendims_spectral_only, exceptions = hmax's reads of the time axis, proved exact), every "
+                      "apply_ufunc vectorised over core dims within {freq, dir} (gendims_ufunc_spectral). Trusted: xarray's named-axis "
+                      "semantics. Correspondence: every catalogue operation on datasets with 0–3 non-spectral dimensions of any order is "
+                      "compared, position by position, with the same call on the extracted single spectrum (own wind/depth); one spectrum is "
+                      "then replaced and every other position must be unchanged; the Dataset accessor must agree with the efth accessor. "
+                      "hmax is excluded by the property.")
+    ck.assumptions = list(getattr(ck, "assumptions", []) or []) + [
+        "xarray named-axis semantics: dim=d reductions/indexers touch only axis d; arithmetic broadcasts by dimension name; vectorize=True loops "
+        "the kernel over every non-core position"]
     ck.extra["rule"] = ("signature = (operation, number of extra dims, whether dims were shuffled, npos class); non-trivial = dataset with at "
                         "least 2 positions")
     ck.do_audit()
